@@ -132,6 +132,36 @@ def clause4(P, res):
         res.unclassified(rid, "handoff-sites", f"expected >= 3 call sites of the hand-off session, found {n}: the hand-off code changed shape, re-read it", where="rules/c02.py")
 
 
+def clause5(P, res):
+    import mir
+    rid = "C02-5"
+    res.rule(rid, "a batch is pulled from the caller's iterator in ticket order: a function that fills slots from an iterator parameter does not hand that iterator to a recursive "
+                  "call of itself before its own `next()` calls — the inner frame would take the first elements of the batch for the *later* tickets (a run that straddles a "
+                  "chunk boundary comes out permuted). Fill loops advance ticket and iterator together, front to back")
+    n = 0
+    for b in chan_bodies(P):
+        nexts = [e for e in b.calls() if e.method == "next" and "Iterator" in e.callee and e.args]
+        if not nexts:
+            continue
+        # iterator parameters of this body
+        iter_args = set()
+        for e in nexts:
+            _, args, _ = mir.operand_sources(b, e.args[0])
+            iter_args |= {a for a in args if a >= 2}
+        if not iter_args:
+            continue
+        n += 1
+        rec = [e for e in b.calls() if (e.callee_resolved == b.id or e.callee == b.id) and any(mir.operand_sources(b, a)[1] & iter_args for a in e.args)]
+        bad = [r for r in rec if any(b.pos_reaches(r.pos, {x.pos}) for x in nexts)]
+        if bad:
+            res.violated(rid, b.id, f"{b.name} passes the batch iterator to a recursive call of itself at {bad[0].loc} and pulls from it afterwards ({nexts[0].loc}): the elements are "
+                         "consumed by the deeper frame first, so the caller's order is permuted across the recursion", where=bad[0].loc)
+        else:
+            res.holds(rid, b.id, "iterator consumed front to back in this frame", where=nexts[0].loc, nontrivial=bool(rec))
+    if n < 10:
+        res.violated(rid, "iterator-fill-bodies", f"expected >= 10 bodies that fill from an iterator parameter, found {n}")
+
+
 def run(P, ctx):
     res = Result("C02")
     res.extra["explanation"] = ("Only three order-relevant shapes: end discipline of the payload queues, reclaimed-before-chain, and order-preserving traversal of batch containers. "
@@ -140,4 +170,5 @@ def run(P, ctx):
     clause2(P, res)
     clause3(P, res)
     clause4(P, res)
+    clause5(P, res)
     return res
